@@ -60,7 +60,7 @@ def load(interp, env, v, depth=0):
     while depth < 8:
         depth += 1
         if isinstance(v, Ref):
-            v = interp.read_place(env, [v.local, v.proj])
+            v = interp.read_ref(env, v)
         elif isinstance(v, HRef):
             items = heap_get(interp, v.vid)
             v = items[v.idx] if v.idx < len(items) else TOP
@@ -364,7 +364,7 @@ def coll_oracle(interp, env, f, args, t, bb, path):
                 return NONE
             nf = list(v0.fields)
             nf[0] = lo + 1
-            interp.write_place(env, [a0.local, a0.proj], Agg(v0.kind, v0.name, v0.variant, nf))
+            interp.write_ref(env, a0, Agg(v0.kind, v0.name, v0.variant, nf))
             return some(lo)
         if nm in ("len", "count"):
             return max(0, hi - lo)
@@ -405,7 +405,7 @@ def coll_oracle(interp, env, f, args, t, bb, path):
         if nm == "next" and isinstance(a0, Ref):
             if not it.items:
                 return NONE
-            interp.write_place(env, [a0.local, a0.proj], It(it.items[1:]))
+            interp.write_ref(env, a0, It(it.items[1:]))
             return some(it.items[0])
         if nm == "next":
             return some(it.items[0]) if it.items else NONE
@@ -553,6 +553,8 @@ def coll_oracle(interp, env, f, args, t, bb, path):
         if m:
             from absint import ok as _ok, err as _err
             return _ok(Agg("array", None, None, list(items))) if len(items) == int(m.group(1)) else _err(v0)
+    if dk == "core::default::Default::default" and (f.get("ret") or "").startswith("alloc::vec::Vec<"):
+        return new_vec(interp)
     if dk == "core::option::Option::cloned" or dk == "core::option::Option::copied":
         if isinstance(v0, Agg) and v0.variant == "Some":
             return some(load(interp, env, v0.fields[0]))
